@@ -134,6 +134,13 @@ def _call_all(order, a0, a1, bs):
         out["ei.j34_expanded"] = (3, "expanded", ei.j34_expanded(a1, a0, beta0))
     elif order == 4:
         bl = b_vec[1:]
+        if (hash((a0, a1)) & 1) == 0:
+            # the b-coefficients as a float64 array (what a caller slicing a NumPy beta vector hands over);
+            # the callee must not modify it
+            bl = np.array(bl, dtype=np.float64)
+            bl_before = bl.copy()
+        else:
+            bl_before = None
         j12 = ei.j12(a1, a0, beta0)
         ok, _why = _cardano_ok(bl)
         if ok:
@@ -153,6 +160,8 @@ def _call_all(order, a0, a1, bs):
         out["as4.j13_expanded"] = (2, "expanded", e13)
         out["as4.j23_expanded"] = (3, "expanded", e23)
         out["as4.j33_expanded"] = (4, "expanded", e33)
+        if bl_before is not None and not np.array_equal(bl, bl_before):
+            raise RuntimeError(f"the array of b-coefficients handed to the N3LO integrals was modified in place: {bl_before.tolist()} -> {bl.tolist()}")
     return out
 
 
